@@ -3179,6 +3179,11 @@ READS_OWN = {"Ownable": {"ledger_sequence": "u32", "min_temp_ttl": "u32", "max_t
 FILES_OWN = [("Ownable", "packages/access/src/role_transfer/storage.rs", ["transfer_role", "accept_transfer"]),
              ("Ownable", "packages/access/src/ownable/storage.rs",
               ["get_owner", "enforce_owner_auth", "transfer_ownership", "accept_ownership", "renounce_ownership"])]
+STORE_ADM = {"AccessAdmin": {"PendingAdmin": ([], "Address", "temp"), "Admin": ([], "Address")}}
+READS_ADM = {"AccessAdmin": {"ledger_sequence": "u32", "min_temp_ttl": "u32", "max_ttl": "u32", "authorized": "addr2bool"}}
+FILES_ADM = [("AccessAdmin", "packages/access/src/role_transfer/storage.rs", ["transfer_role", "accept_transfer"]),
+             ("AccessAdmin", "packages/access/src/access_control/storage.rs",
+              ["get_admin", "enforce_admin_auth", "set_admin", "transfer_admin_role", "accept_admin_transfer", "renounce_admin"])]
 STORE_FEEST = {"FeeSt": {"Count": ([], "u32"), "TokenIndex": (["Address"], "u32")}}
 READS_FEEST = {"FeeSt": {"ledger_sequence": "u32", "current_contract_address": "Address",
                          "authorized_for_args": ("purefn", ["Address", "tuple<Address,i128,u32,Address,Symbol,Val>"], "bool"),
@@ -3863,6 +3868,10 @@ def main():
             txt = translate(repo, FILES_CTIF, reads={"TopicsF": {}}, store=STORE_CTIF)
         elif "--topics" in sys.argv:
             txt = translate(repo, FILES_CTI, reads={"Topics": {}}, store=STORE_CTI)
+        elif "--access-admin" in sys.argv:
+            txt = translate(repo, FILES_ADM, imports=("OZ.Model.RustSemHost",), reads=READS_ADM, store=STORE_ADM,
+                            tymaps={"packages/access/src/role_transfer/storage.rs": {"T": "Key!", "U": "Key!"}},
+                            key_params={"pending_key": "PendingAdmin", "active_key": "Admin"})
         elif "--ownable" in sys.argv:
             txt = translate(repo, FILES_OWN, imports=("OZ.Model.RustSemHost",), reads=READS_OWN, store=STORE_OWN,
                             tymaps={"packages/access/src/role_transfer/storage.rs": {"T": "Key!", "U": "Key!"}},
